@@ -688,6 +688,32 @@ func (c *Ctx) specialCall(s *State, in ssa.Instruction, name string, cc *ssa.Cal
 		}
 		c.doUnlock(s, in, key, base, pos)
 		return true
+	case "errors.As":
+		// errors.As(err, target): when it reports true, *target holds a non-nil value of target's element type
+		tgt, ok := args[1].(If)
+		r := c.freshConst("errorsAs", SBool)
+		if ok {
+			if n, isLit := isIntLit(tgt.Typ); isLit {
+				if pt, ok := typeByCode[int(n)].(*types.Pointer); ok {
+					oldv := c.loadAt(s, tgt.Val, pt.Elem())
+					nv := c.freshValue(s, pt.Elem(), "errorsAs.target")
+					if sc, ok := nv.(Sc); ok && isRefType(pt.Elem()) {
+						s.assume(Implies(r, Neq(sc.T, IntLit(0))))
+					}
+					if iv, ok := nv.(If); ok {
+						s.assume(Implies(r, Neq(iv.Typ, IntLit(0))))
+					}
+					c.storeAt(s, tgt.Val, pt.Elem(), c.iteValue(r, nv, oldv))
+				}
+			}
+		}
+		if ev, ok := args[0].(If); ok {
+			s.assume(Implies(Eq(ev.Typ, IntLit(0)), Not(r)))
+		}
+		if res != nil {
+			c.setVal(s, res, Sc{T: r})
+		}
+		return true
 	case "time.Now":
 		if res != nil {
 			c.setVal(s, res, Sc{T: c.clockRead(s, pos)})
